@@ -38,7 +38,9 @@ REQUIRED_RULES = {
 
 
 def corpus_programs():
-    """corpus/c01 (single files and the directory program 25_modules, entry Main) and corpus/c03"""
+    """corpus/c01 (single files and the directory program 25_modules, entry Main), corpus/c03 and corpus/c02mir
+    (shapes the optimisation passes rewrite: operand order of non-commutative operators, parameter-permuting
+    tail calls, derived induction variables, loop-invariant expressions, objects that never escape)"""
     progs = []
     base = os.path.join(VERIF, "corpus", "c01")
     for p in sorted(glob.glob(os.path.join(base, "*"))):
@@ -53,7 +55,7 @@ def corpus_programs():
             progs.append({"origin": f"corpus:c01/{name}", "entry": "Main", "sources": srcs})
         elif name.endswith(".sam"):
             progs.append({"origin": f"corpus:c01/{name[:-4]}", "entry": "Main", "sources": {"Main": open(p).read()}})
-    return progs + pc.corpus_dir_programs("c03")
+    return progs + pc.corpus_dir_programs("c03") + pc.corpus_dir_programs("c02mir")
 
 
 def observe(d, name, groups, jobs=8, fuel=20_000_000):
